@@ -42,8 +42,9 @@ MC = {
                            "<=2 runs of length 0..3, 3 ops, counts 0..4")],
     ("C17", "quick"): [("q_w", dict(BASE, Kinds="MC_KindsW", MaxOps=2, MaxN=3), "writers only: <=3 runs of length 0..2 at every alignment against 2-byte pages, 2 ops"),
                        ("q_w2", dict(BASE, Kinds="MC_KindsW", MaxSegs=2, MaxOps=3, MaxN=2), "writers only: <=2 runs, 3 ops (split of split, short file reads)")],
-    ("C17", "thorough"): [("t_w", dict(BASE, Kinds="MC_KindsW", MaxLen=3, MaxOps=3, MaxN=4, MaxAddr=7, FileSize=3),
-                           "writers only: <=3 runs of length 0..3, 3 ops, counts 0..4")],
+    ("C17", "thorough"): [("t_w", dict(BASE, Kinds="MC_KindsW", MaxOps=3, MaxN=3), "writers only: <=3 runs of length 0..2, 3 ops, counts 0..3"),
+                          ("t_w2", dict(BASE, Kinds="MC_KindsW", MaxSegs=2, MaxLen=3, MaxOps=3, MaxN=4, MaxAddr=7, FileSize=3),
+                           "writers only: <=2 runs of length 0..3, 3 ops, counts 0..4")],
 }
 REPLAY_SAMPLE = {"quick": 1200, "thorough": 15000}
 RANDOM_STEPS = {"quick": 2500, "thorough": 100000}
